@@ -13,7 +13,7 @@ NAMESPACE = 'Props.C17'
 LEAN_CONE = ['PncModel.Interp', 'PncProofs.InterpLemmas', 'PncProofs.SigmaLemmas', 'PncProofs.C17']
 LEMMA_FILES = ['PncProofs/InterpLemmas.lean', 'PncProofs/SigmaLemmas.lean']
 REQUIRED_THEOREMS = ['sum_one', 'nonneg', 'linear_exact', 'linear_exact_inside', 'identity',
-                     'sum_one_any', 'nonneg_any', 'cover', 'thickness', 'flux', 'mass', 'const', 'apply_linear', 'apply_const']
+                     'sum_one_any', 'nonneg_any', 'cover', 'thickness', 'flux', 'mass', 'const', 'apply_linear', 'apply_const', 'reduced_sum_one', 'reduced_rows_counterexample']
 RULE = ('weights: strictly monotonic sources (ascending and descending, 2..7 nodes, spacings powers of two '
         'so scipy/numpy float arithmetic is exact), dyadic targets at nodes, between nodes and outside both '
         'ends, extrapolate on/off; sigma: descending edge lists from 1 to 0 with power-of-two thicknesses, '
